@@ -46,7 +46,7 @@ META = {
     "property_id": "C08",
     "design_ref": "DESIGN.md §4 C08 (+ C06, §3.5 ranks, §6 F6, Appendix A, B.2)",
     "technique": "Coq proof (arithmetic of torch.chunk sharding; induction over the parameter list for the three filtered traversals and the block-info zip; induction over histories via the C04 masked-step model and the C06 cluster model; column decomposition of the mesh) + correspondence on an in-process rank simulator with duck-typed DTensors (structure and selectors exact, values bit-exact, evaluated by vm_compute) + certified checkers on the observed local shards / logs",
-    "level_text": "Theorems (FullyShard*.v, closed under the global context) for all shapes, shard counts (incl. more ranks than rows), ranks, blocking functions, per-block computations and histories: chunk_partition (torch.chunk shards partition the rows in order), empty_shards_skipped (the filtered parameter / gradient / block-info lists stay aligned, every zip(strict=True) succeeds, block infos carry the position of a NON-EMPTY parameter and its index in the filtered list, a parameter with an empty local shard appears nowhere), fs_run_is_serial_run + fully_shard_eq_serial_on_local (the FullyShard run of a rank is the single-process run on the non-empty local tensors as ordinary parameters, never fails, = block-wise specification), absent_dtensor_grad_is_absent (selector = `p.grad is not None` per block; absent -> value and state kept; all absent -> no step), hybrid_columns_independent, hybrid_eq_fully_plus_ddp (R x S mesh, gs | R, any assignment, any communication rounding, EVERY history - the skip rule as repaired in /repo, hybrid_every_history_synchronised -: the mesh run exists and every rank (i,s) = FullyShard-only run of shard coordinate s with the communicated quantity rounded), hybrid_replicas_agree (replicas identical, equal all-gather sequences per comms group), hybrid_interleaving_irrelevant (columns share nothing; inside a column every maximal schedule of C06's small-step semantics ends in the lock-step state, none deadlocks). Rank starvation (F6, repaired in /repo) is no longer excluded: starving histories are part of the tie and must pass. Tie: simulated ranks with FakeDT parameters, shard counts 1..8, rows fewer than ranks, 1-D/2-D/3-D parameters, 5 optimizer configurations, use_merge_dims on/off, 4-6 steps with absent gradients; HybridShard meshes up to 8 ranks, all divisors, FP32/BF16/FP16, communicate_params on/off, starving histories.",
+    "level_text": "Theorems (FullyShard*.v, closed under the global context) for all shapes, shard counts (incl. more ranks than rows), ranks, blocking functions, per-block computations and histories: chunk_partition (torch.chunk shards partition the rows in order), empty_shards_skipped (the filtered parameter / gradient / block-info lists stay aligned, every zip(strict=True) succeeds, block infos carry the position of a NON-EMPTY parameter and its index in the filtered list, a parameter with an empty local shard appears nowhere), fs_run_is_serial_run + fully_shard_eq_serial_on_local (the FullyShard run of a rank is the single-process run on the non-empty local tensors as ordinary parameters, never fails, = block-wise specification), absent_dtensor_grad_is_absent (selector = `p.grad is not None` per block; absent -> value and state kept; all absent -> no step), hybrid_columns_independent, hybrid_eq_fully_plus_ddp (R x S mesh, gs | R, any assignment, any communication rounding, EVERY history - the skip rule as repaired in /repo, hybrid_every_history_synchronised -: the mesh run exists and every rank (i,s) = FullyShard-only run of shard coordinate s with the communicated quantity rounded), hybrid_replicas_agree (replicas identical, equal all-gather sequences per comms group), hybrid_interleaving_irrelevant (columns share nothing; inside a column every maximal schedule of C06's small-step semantics ends in the lock-step state, none deadlocks). Rank starvation (F6, repaired in /repo) is no longer excluded: starving histories are part of the tie and must pass. Quantifier audit (evidence quantifier_audit, measured per run): shard counts 1..8 and 8-rank meshes also in the quick tier, float32/float64/bfloat16/float16 parameters x float32/float64 preconditioners x every communication dtype (non-float32 HybridShard columns: model ties logs/creations/hangs, values decided by the certified checker against the rounded FullyShard-only run), present-but-zero / tiny (1e-6, 1e-30) / huge gradient rows, gradients in a non-default memory layout, alternating equal-shaped parameters, no gradient at the first step, rank-dependent presence and twin parameter groups (FullyShard), numel-0 parameters, injected interleaving delays. Tie: simulated ranks with FakeDT parameters, shard counts 1..8, rows fewer than ranks, 1-D/2-D/3-D parameters, 5 optimizer configurations, use_merge_dims on/off, 4-6 steps with absent gradients; HybridShard meshes up to 8 ranks, all divisors, FP32/BF16/FP16, communicate_params on/off, starving histories.",
     "level_note": "Trusted: Coq kernel+vm_compute; the hand-written model (FullyShardDistributor = inherited default Distributor over the filtered traversals - the inherited part is C04's Masks.v model; HybridShard's replicate-group part is C06's Dist.v model); harness/sim.py and the FakeDT stand-in for DTensor (to_local, .grad; the real fully_shard / DTensor runtime needs accelerators and is not exercised; the chunking is torch.chunk's, as in DTensor Shard(0)); per-block optimizer mathematics is not recomputed: FullyShard values are compared with the single-process implementation run, HybridShard replays the recorded search directions. A rank on which EVERY local shard is empty cannot construct the optimizer (AssertionError `local_blocked_params`; torch.optim equally rejects an empty parameter list): outside the property's domain, modelled as fs_has_work and checked.",
     "ready": True,
 }
@@ -99,6 +99,24 @@ def fake_dt_class():
     return FakeDT
 
 
+def bits_of(t):      # shadows c06.bits_of (float32 only): exact bit patterns of float32 / float64 / bfloat16 / float16 tensors
+    import torch
+    t = t.detach().contiguous().reshape(-1)
+    if t.dtype == torch.float32:
+        return [int(x) & 0xFFFFFFFF for x in t.view(torch.int32).tolist()]
+    if t.dtype == torch.float64:
+        return [int(x) & 0xFFFFFFFFFFFFFFFF for x in t.view(torch.int64).tolist()]
+    return [int(x) & 0xFFFF for x in t.view(torch.int16).tolist()]
+
+
+PDTYPES = {"f32": "float32", "f64": "float64", "bf16": "bfloat16", "f16": "float16"}
+
+
+def _pdtype(spec):
+    import torch
+    return getattr(torch, PDTYPES[spec.get("pdtype", "f32")])
+
+
 def chunk_rows(rows, n, r):
     """(lo, hi) of rank r - the harness's own arithmetic, used for the references; validated against torch.chunk."""
     cs = (rows + n - 1) // n
@@ -125,8 +143,9 @@ def make_opt(spec, dcfg):
         graft = AdamGraftingConfig(beta2=g[1], epsilon=g[2])
 
     def make(params):
+        import torch
         return DistributedShampoo(
-            params, lr=c["lr"], betas=c["betas"], epsilon=c["epsilon"], momentum=c.get("momentum", 0.0),
+            params, preconditioner_dtype=torch.float64 if spec.get("precdtype") == "f64" else torch.float32, lr=c["lr"], betas=c["betas"], epsilon=c["epsilon"], momentum=c.get("momentum", 0.0),
             weight_decay=c.get("weight_decay", 0.0), max_preconditioner_dim=spec["maxdim"], precondition_frequency=c["freq"],
             start_preconditioning_step=c["start"], use_nesterov=c.get("nesterov", False),
             use_bias_correction=c.get("bias_correction", True), use_decoupled_weight_decay=c.get("decoupled", True),
@@ -150,7 +169,22 @@ def make_tensors(spec):
     for t, j, lo, hi in spec.get("zeros", []):
         if grads[t][j] is not None:
             grads[t][j][lo:hi] = 0.0
+    # rows of present gradients scaled to tiny (1e-6, 1e-30) or huge (1e3) magnitudes
+    for t, j, lo, hi, f in spec.get("scales", []):
+        if grads[t][j] is not None:
+            grads[t][j][lo:hi] *= f
+    dt = _pdtype(spec)
+    init = [t.to(dt) for t in init]
+    grads = [[None if g is None else g.to(dt) for g in row] for row in grads]
     return init, grads
+
+
+def _layout(g, noncontig):
+    """The same values; for tensors of order >= 2 optionally in a non-default memory layout (last two dims swapped in storage)."""
+    h = g.detach().clone()       # always a private copy: the optimizer may modify gradients in place (coupled weight decay)
+    if noncontig and h.ndim >= 2:
+        h = h.transpose(-1, -2).contiguous().transpose(-1, -2)
+    return h
 
 
 def _dist(opt):
@@ -179,10 +213,10 @@ def _outside(p):
     return bits_of(torch.cat([base[:p._lo], base[p._hi:]]))
 
 
-def _set_grads(params, grow, n, r):
+def _set_grads(params, grow, n, r, noncontig=()):
     FakeDT = fake_dt_class()
-    for p, g in zip(params, grow):
-        p.grad = None if g is None else FakeDT.make(g.detach().clone(), n, r)
+    for j, (p, g) in enumerate(zip(params, grow)):
+        p.grad = None if g is None else FakeDT.make(_layout(g, j in noncontig), n, r)
 
 
 def rounded_update_params_factory(cd, cp):
@@ -207,42 +241,58 @@ def rounded_update_params_factory(cd, cp):
 # FullyShard on n simulated ranks
 
 
-def fs_rank_fn(spec, init, grads, n, record_blocks=False):
-    """rank function of a FullyShard cluster; everything observed goes to ctx.partial (survives an exception)."""
-    from distributed_shampoo.shampoo_types import FullyShardShampooConfig, STEP
+def _groups(spec):
+    return spec.get("groups") or [list(range(len(spec["shapes"])))]
+
+
+def _rank_presence(spec, r):
+    rp = spec.get("rank_presence")
+    return rp[r] if rp else spec["presence"]
+
+
+def fs_rank_fn(spec, init, grads, n, record_blocks=False, per_rank_presence=True):
+    """rank function of a FullyShard cluster; everything observed goes to ctx.partial (survives an exception).
+    Per parameter group g of the optimizer (twin groups: identical hyperparameters) rec["grp"][g] holds what that group's
+    distributor shows; per-parameter observations are over all parameters, in PARAMS order of the spec."""
+    from distributed_shampoo.shampoo_types import DISTRIBUTOR, FullyShardShampooConfig, STEP
     FakeDT = fake_dt_class()
+    groups = _groups(spec)
+    noncontig = set(spec.get("noncontig", []))
 
     def rank_fn(ctx):
         r = ctx.rank
-        rec = {"lshapes": [], "ctor_failed": False, "nbs": [], "binfo": [], "local": [], "outside0": [], "outside": [], "sel": [], "stepc": [],
-               "changed": [], "nstate": [], "blocks": [], "init_blocks": []}
+        pres = _rank_presence(spec, r) if per_rank_presence else spec["presence"]
+        rec = {"lshapes": [], "ctor_failed": False, "local": [], "outside0": [], "outside": [], "changed": [], "nstate": [], "blocks": [],
+               "init_blocks": [], "grp": []}
         ctx.partial = rec
         params = [FakeDT.make(t.detach().clone(), n, r, True) for t in init]
         rec["lshapes"] = [list(p.to_local().shape) for p in params]
         rec["outside0"] = [_outside(p) for p in params]
+        arg = params if len(groups) == 1 else [{"params": [params[j] for j in g]} for g in groups]
         try:
-            opt = make_opt(spec, FullyShardShampooConfig())(params)
+            opt = make_opt(spec, FullyShardShampooConfig())(arg)
         except AssertionError as e:
             if "no parameters to work on" not in str(e):
                 raise
             rec["ctor_failed"] = True
             return rec
-        d = _dist(opt)
-        rec["nbs"] = [int(x) for x in d._global_num_blocks_per_param]
-        rec["binfo"] = _binfos(d, params)
-        rec["init_blocks"] = [bits_of(b) for b in d._global_blocked_params]
+        ds = [opt._per_group_state_lists[gi][DISTRIBUTOR] for gi in range(len(groups))]
+        rec["grp"] = [{"nbs": [int(x) for x in d._global_num_blocks_per_param], "binfo": _binfos(d, [params[j] for j in g]), "sel": [], "stepc": []}
+                      for d, g in zip(ds, groups)]
+        rec["init_blocks"] = [bits_of(b) for d in ds for b in d._global_blocked_params]
         prev = [bits_of(p.to_local()) for p in params]
         for step in range(len(grads)):
-            _set_grads(params, grads[step], n, r)
+            _set_grads(params, [g if pres[step][j] else None for j, g in enumerate(grads[step])], n, r, noncontig)
             opt.step()
             cur = [bits_of(p.to_local()) for p in params]
             rec["local"].append(cur)
             rec["outside"].append([_outside(p) for p in params])
-            rec["sel"].append([bool(x) for x in d._global_grad_selector])
-            rec["stepc"].append(_stepc(opt))
+            for gi, d in enumerate(ds):
+                rec["grp"][gi]["sel"].append([bool(x) for x in d._global_grad_selector])
+                rec["grp"][gi]["stepc"].append(int(opt._per_group_state_lists[gi][STEP].item()))
             rec["changed"].append([a != b for a, b in zip(prev, cur)])
             if record_blocks:
-                rec["blocks"].append([bits_of(b) for b in d._global_blocked_params])
+                rec["blocks"].append([bits_of(b) for d in ds for b in d._global_blocked_params])
             prev = cur
         rec["nstate"] = [len([k for k in opt.state[p] if k != STEP]) if p in opt.state else 0 for p in params]
         return rec
@@ -250,21 +300,27 @@ def fs_rank_fn(spec, init, grads, n, record_blocks=False):
 
 
 def serial_on_locals(spec, init, grads, n, r):
-    """The single-process optimizer on the non-empty local tensors of rank r as ordinary parameters."""
+    """The single-process optimizer on the non-empty local tensors of rank r as ordinary parameters (same parameter groups,
+    same gradient layout); returns per group: step -> parameter of that group -> bits."""
     import torch
-    loc = [(i,) + chunk_rows(t.shape[0], n, r) for i, t in enumerate(init)]
-    ne = [(i, lo, hi) for i, lo, hi in loc if (hi - lo) * math.prod(init[i].shape[1:]) > 0]
-    if not ne:
-        return []
-    params = [torch.nn.Parameter(init[i][lo:hi].detach().clone()) for i, lo, hi in ne]
-    opt = make_opt(spec, None)(params)
-    out = []
+    groups = _groups(spec)
+    pres = _rank_presence(spec, r)
+    noncontig = set(spec.get("noncontig", []))
+    loc = {i: chunk_rows(t.shape[0], n, r) for i, t in enumerate(init)}
+    ne = [[i for i in g if (loc[i][1] - loc[i][0]) * math.prod(init[i].shape[1:]) > 0] for g in groups]
+    if not all(ne):
+        return [[] for _ in groups]
+    params = {i: torch.nn.Parameter(init[i][loc[i][0]:loc[i][1]].detach().clone()) for g in ne for i in g}
+    arg = [params[i] for i in ne[0]] if len(groups) == 1 else [{"params": [params[i] for i in g]} for g in ne]
+    opt = make_opt(spec, None)(arg)
+    out = [[] for _ in groups]
     for step in range(len(grads)):
-        for p, (i, lo, hi) in zip(params, ne):
-            g = grads[step][i]
-            p.grad = None if g is None else g[lo:hi].detach().clone()
+        for i, p in params.items():
+            g = grads[step][i] if pres[step][i] else None
+            p.grad = None if g is None else _layout(g, i in noncontig)[loc[i][0]:loc[i][1]]
         opt.step()
-        out.append([bits_of(p) for p in params])
+        for gi, g in enumerate(ne):
+            out[gi].append([bits_of(params[i]) for i in g])
     return out
 
 
@@ -278,13 +334,14 @@ def run_fs(spec):
         sizes = [c.shape[0] for c in torch.chunk(t, n, dim=0)]
         sizes += [0] * (n - len(sizes))
         assert sizes == [hi - lo for lo, hi in (chunk_rows(t.shape[0], n, r) for r in range(n))], (t.shape, n, sizes)
-    res = sim.run_cluster(n, fs_rank_fn(spec, init, grads, n), seed=spec["seed"], patch_to_local=True)
+    full = [[g if g is not None else None for g in row] for row in grads]
+    res = sim.run_cluster(n, fs_rank_fn(spec, init, full, n), seed=spec["seed"], patch_to_local=True)
     ranks = []
     for r in range(n):
         rec = res.results[r] if res.results[r] is not None else (res.partial[r] or {})
         err = res.errors[r]
         ranks.append({"rec": rec, "error": None if err is None else f"{type(err).__name__}: {err}",
-                      "traceback": res.tracebacks[r], "ref": serial_on_locals(spec, init, grads, n, r) if err is None and not rec.get("ctor_failed") else []})
+                      "traceback": res.tracebacks[r], "ref": serial_on_locals(spec, init, full, n, r) if err is None and not rec.get("ctor_failed") else []})
     return {"ranks": ranks, "wall": res.wall_s}
 
 
@@ -337,7 +394,9 @@ def run_hy(spec, timeout=5.0):
 
         d.update_params = update_params
         for step in range(len(grads)):
-            _set_grads(params, grads[step], S, s)
+            if spec.get("delays"):      # injected interleaving: ranks reach their collectives in a random order
+                time.sleep(float(torch.rand(1, generator=ctx.generator)) * 0.004)
+            _set_grads(params, grads[step], S, s, set(spec.get("noncontig", [])))
             opt.step()
             rec["blocks"].append([bits_of(b) for b in d._global_blocked_params])
             rec["local"].append([bits_of(p.to_local()) for p in params])
@@ -358,7 +417,7 @@ def run_hy(spec, timeout=5.0):
     # the FullyShard-only reference of every shard coordinate (communicated quantity rounded like the distributor does)
     cd = _torch_dtype(spec["cdtype"])
     fs_fn = fs_rank_fn(spec, init, grads, S, record_blocks=True)
-    if spec["cdtype"] in ("BF16", "FP16"):
+    if spec["cdtype"] in ("BF16", "FP16") or spec.get("pdtype", "f32") != "f32":      # communication dtype != storage dtype
         with mock.patch.object(Distributor, "update_params", rounded_update_params_factory(cd, spec["cp"])):
             ref = sim.run_cluster(S, fs_fn, seed=spec["seed"], patch_to_local=True)
     else:
@@ -433,34 +492,48 @@ def coq_bitss(xs):
     return cl(coq_zs(x) for x in xs)
 
 
-def coq_struct(rec, full):
-    bis = cl(f"mkBI {a} {b} {max(c, 0)}" for a, b, c, _ in rec.get("binfo", []))
-    ranks = coq_nats(max(x[3], 0) + (10 ** 6 if x[3] < 0 or x[2] < 0 else 0) for x in rec.get("binfo", []))
-    return (f"mkFsStruct {coq_shapes(rec.get('lshapes', []))} {coq_bool(rec.get('ctor_failed', False))} {coq_nats(rec.get('nbs', []))} {bis} {ranks} "
-            f"{cl(coq_bools(x) for x in rec.get('sel', []))} {'[' + '; '.join(str(x) for x in rec.get('stepc', [])) + ']%Z'} "
-            f"{cl(coq_bools(x) for x in rec.get('changed', [])) if full else '[]'}")
+def _bis(binfo):
+    return cl(f"mkBI {a} {b} {max(c, 0)}" for a, b, c, _ in binfo)
+
+
+def coq_struct_of(lshapes, ctor_failed, nbs, binfo, sel, stepc, changed):
+    ranks = coq_nats(max(x[3], 0) + (10 ** 6 if x[3] < 0 or x[2] < 0 else 0) for x in binfo)
+    return (f"mkFsStruct {coq_shapes(lshapes)} {coq_bool(ctor_failed)} {coq_nats(nbs)} {_bis(binfo)} {ranks} "
+            f"{cl(coq_bools(x) for x in sel)} {'[' + '; '.join(str(x) for x in stepc) + ']%Z'} {cl(coq_bools(x) for x in changed)}")
+
+
+def coq_struct(rec, full):      # HybridShard ranks (one parameter group)
+    return coq_struct_of(rec.get("lshapes", []), rec.get("ctor_failed", False), rec.get("nbs", []), rec.get("binfo", []), rec.get("sel", []),
+                         rec.get("stepc", []), rec.get("changed", []) if full else [])
 
 
 def coq_fs_case(i, spec, out):
+    """Per rank and per parameter group: the FullyShard model of that group's distributor + the certified checker."""
     lines, names = [], []
     n = spec["n"]
-    pres = cl(coq_bools(p) for p in spec["presence"])
-    lines.append(f"Definition gsh_{i} := {coq_shapes(spec['shapes'])}.")
-    lines.append(f"Definition pres_{i} : list (list bool) := {pres}.")
+    groups = _groups(spec)
+    for gi, g in enumerate(groups):
+        lines.append(f"Definition gsh_{i}_{gi} := {coq_shapes([spec['shapes'][j] for j in g])}.")
     for r, rk in enumerate(out["ranks"]):
         rec = rk["rec"]
-        lines.append(f"Definition fx_{i}_{r} : fs_struct := {coq_struct(rec, True)}.")
-        agree = f"C08_fs_agree gsh_{i} {n} {r} {spec['maxdim']}%Z {coq_bool(spec['merge'])} pres_{i} None true fx_{i}_{r}"
-        if rec.get("ctor_failed") or rk["error"]:
-            chk = "true"
-        else:
-            bis = cl(f"mkBI {a} {b} {max(c, 0)}" for a, b, c, _ in rec["binfo"])
-            lines.append(f"Definition fo_{i}_{r} : fs_obs := mkFsObs {cl(coq_bitss(x) for x in rec['local'])} {cl(coq_bitss(x) for x in rk['ref'])} "
-                         f"{coq_bitss(rec['outside0'])} {cl(coq_bitss(x) for x in rec['outside'])} {bis} {coq_nats(rec['nstate'])}.")
-            chk = f"C08_checkb gsh_{i} {n} {r} fo_{i}_{r}"
-        names.append(f"[{agree}; {chk}]")
+        pres = _rank_presence(spec, r)
+        for gi, g in enumerate(groups):
+            tag = f"{i}_{r}_{gi}"
+            lines.append(f"Definition pres_{tag} : list (list bool) := {cl(coq_bools([row[j] for j in g]) for row in pres)}.")
+            grec = rec["grp"][gi] if rec.get("grp") else {"nbs": [], "binfo": [], "sel": [], "stepc": []}
+            sub = lambda row: [row[j] for j in g]      # noqa: E731
+            lines.append(f"Definition fx_{tag} : fs_struct := " + coq_struct_of(sub(rec.get("lshapes", [[]] * len(spec["shapes"]))), rec.get("ctor_failed", False),
+                                                                              grec["nbs"], grec["binfo"], grec["sel"], grec["stepc"], [sub(x) for x in rec.get("changed", [])]) + ".")
+            agree = f"C08_fs_agree gsh_{i}_{gi} {n} {r} {spec['maxdim']}%Z {coq_bool(spec['merge'])} pres_{tag} None true fx_{tag}"
+            if rec.get("ctor_failed") or rk["error"]:
+                chk = "true"
+            else:
+                lines.append(f"Definition fo_{tag} : fs_obs := mkFsObs {cl(coq_bitss(sub(x)) for x in rec['local'])} {cl(coq_bitss(x) for x in rk['ref'][gi])} "
+                             f"{coq_bitss(sub(rec['outside0']))} {cl(coq_bitss(sub(x)) for x in rec['outside'])} {_bis(grec['binfo'])} {coq_nats(sub(rec['nstate']))}.")
+                chk = f"C08_checkb gsh_{i}_{gi} {n} {r} fo_{tag}"
+            names.append(f"[{agree}; {chk}]")
     lines.append(f"Definition res_{i} : list bool := {' ++ '.join(names)}.")
-    return "\n".join(lines)
+    return "\n".join(lines), 2 * len(names)
 
 
 def column_of(spec, out, s):
@@ -498,7 +571,10 @@ def coq_hy_case(i, spec, out, sig):
         refs.append(f"ref_{i}_{s}")
         cols.append(f"obs_{i}_{s}")
         starves = bool(sig["columns"][s]["starving_steps"])
-        names.append(f"C08_hy_agree {R} {S} {gs} {s} P_{i}_{s} gsh_{i} {spec['maxdim']}%Z {coq_bool(spec['merge'])} pres_{i} v0_{i}_{s} b0_{i}_{s} {coq_bool(starves)} obs_{i}_{s}")
+        if spec.get("pdtype", "f32") == "f32":
+            names.append(f"C08_hy_agree {R} {S} {gs} {s} P_{i}_{s} gsh_{i} {spec['maxdim']}%Z {coq_bool(spec['merge'])} pres_{i} v0_{i}_{s} b0_{i}_{s} {coq_bool(starves)} obs_{i}_{s}")
+        else:       # other storage dtypes: logs / creations / hung ranks from the model, values by the certified checker only
+            names.append(f"C08_hy_agree_struct {R} {S} {gs} {s} P_{i}_{s} gsh_{i} {spec['maxdim']}%Z {coq_bool(spec['merge'])} pres_{i} {coq_bool(starves)} obs_{i}_{s}")
         for k, rk in enumerate(rks):
             rec = rk["rec"]
             lines.append(f"Definition fx_{i}_{s}_{k} : fs_struct := {coq_struct(rec, False)}.")
@@ -549,6 +625,16 @@ def gen_presence(rng, kind, nparams, T):
             pres[t][a] = False
         b, t0 = rng.randrange(nparams), rng.randrange(T)
         pres[t0][b] = False
+        return pres
+    if kind == "first_none":      # nobody has a gradient at the first step(s); one parameter joins even later
+        pres[0] = [False] * nparams
+        a = rng.randrange(nparams)
+        pres[1][a] = False
+        return pres
+    if kind == "alternate":       # parameters 0 and 1 (equal shapes, see audit_specs) alternate: same count, different pattern
+        for t in range(T):
+            pres[t][0] = t % 2 == 0
+            pres[t][1] = t % 2 == 1
         return pres
     raise ValueError(kind)
 
@@ -675,7 +761,225 @@ def gen_scenarios(ck: Check):
                 k += 1
     specs.append(ZERO_SHARD_MINIMAL)
     specs.append(F6_MINIMAL)
+    specs += audit_specs(rng, thorough)
     return specs
+
+
+def audit_specs(rng, thorough):
+    """Targeted scenarios for the input classes the quantifier of C08 names or plainly allows and the random generator above
+    does not reach in the quick tier (quantifier audit; the measured class counts go to evidence quantifier_audit)."""
+    opts = list(OPT_CONFIGS)
+    out = []
+    cnt = [0]
+
+    def fs(n, **kw):
+        every = kw.pop("every", True)
+        shapes = kw.pop("shapes", None)
+        maxdim, merge = kw.pop("maxdim", None), kw.pop("merge", None)
+        if shapes is None:
+            shapes, md, mg = choose_shapes(rng, n, every)
+            maxdim = md if maxdim is None else maxdim
+            merge = mg if merge is None else merge
+        T = kw.pop("T", rng.randint(4, 6))
+        pk = kw.pop("pkind", "random")
+        spec = {"kind": "fs", "n": n, "shapes": [list(x) for x in shapes], "maxdim": 4 if maxdim is None else maxdim, "merge": True if merge is None else merge,
+                "opt": kw.pop("opt", opts[cnt[0] % len(opts)]), "presence": gen_presence(rng, pk, len(shapes), T), "pkind": pk,
+                "seed": rng.randrange(1 << 30), "zeros": [], "zkind": "none"}
+        spec.update(kw)
+        cnt[0] += 1
+        out.append(spec)
+        return spec
+
+    def hy(R, S, gs, cp, dt, **kw):
+        shapes = kw.pop("shapes", None)
+        maxdim, merge = kw.pop("maxdim", None), kw.pop("merge", None)
+        if shapes is None:
+            shapes, md, mg = choose_shapes(rng, S, True, min_blocks=gs)
+            maxdim = md if maxdim is None else maxdim
+            merge = mg if merge is None else merge
+        T = kw.pop("T", rng.randint(4, 6))
+        pk = kw.pop("pkind", "random")
+        spec = {"kind": "hy", "R": R, "S": S, "gs": gs, "gs_default": kw.pop("gs_default", False), "cp": cp, "cdtype": dt,
+                "shapes": [list(x) for x in shapes], "maxdim": 4 if maxdim is None else maxdim, "merge": True if merge is None else merge,
+                "opt": kw.pop("opt", opts[cnt[0] % len(opts)]), "presence": gen_presence(rng, pk, len(shapes), T), "pkind": pk,
+                "seed": rng.randrange(1 << 30), "zeros": [], "zkind": "none"}
+        spec.update(kw)
+        cnt[0] += 1
+        out.append(spec)
+        return spec
+
+    def scale_rows(spec, n, f, whole=False):
+        """rows of one rank's non-empty shard (or the whole gradient) of a parameter scaled by f at a middle step, present around it"""
+        T = len(spec["presence"])
+        t = rng.randrange(1, T - 1)
+        j = rng.randrange(len(spec["shapes"]))
+        rows = spec["shapes"][j][0]
+        cands = [r for r in range(n) if chunk_rows(rows, n, r)[1] > chunk_rows(rows, n, r)[0]]
+        lo, hi = (0, rows) if whole else chunk_rows(rows, n, rng.choice(cands))
+        for tt in (t - 1, t, t + 1):
+            spec["presence"][tt][j] = True
+        spec.setdefault("scales", []).append([t, j, lo, hi, f])
+
+    reps = 3 if thorough else 1
+    for _ in range(reps):
+        # -- shard counts 5..8 and 8-rank meshes also in the quick tier
+        if not thorough:
+            for n in (5, 6, 7, 8):
+                fs(n, pkind="random")
+                fs(n, pkind="late", every=(n != 7))
+            hy(4, 2, 2, True, "FP32", pkind="full")
+            hy(2, 4, 2, False, "BF16", pkind="late")
+            hy(8, 1, 4, True, "FP16", pkind="full")
+            hy(1, 4, 1, False, "FP32", pkind="random")
+        # -- storage dtype of the parameters x preconditioner dtype x communication dtype
+        for n, pd, op in ((2, "f64", "shampoo_adam"), (3, "bf16", "shampoo_momentum"), (2, "f16", "shampoo_adagrad"), (4, "f64", "soap"), (3, "bf16", "shampoo_rmsprop")):
+            fs(n, pdtype=pd, opt=op)
+        fs(3, precdtype="f64", opt="shampoo_adam")
+        fs(2, precdtype="f64", pdtype="f64", opt="soap")
+        for (R, S, gs, cp, dt, pd) in ((2, 2, 2, False, "FP32", "f64"), (2, 1, 2, True, "BF16", "f64"), (2, 2, 2, True, "FP32", "bf16"), (2, 2, 1, False, "BF16", "bf16"),
+                                       (3, 1, 3, False, "FP16", "f16"), (2, 2, 2, True, "FP32", "f16")):
+            hy(R, S, gs, cp, dt, pdtype=pd, opt=("shampoo_adam", "shampoo_momentum", "shampoo_rmsprop")[cnt[0] % 3], pkind=("full", "late", "random")[cnt[0] % 3])
+        hy(2, 2, 2, False, "FP32", precdtype="f64", opt="shampoo_adam")
+        # -- gradient magnitudes: tiny (1e-6: tolerance tests vs exact-zero tests; 1e-30: squares underflow) and huge, on a shard / whole
+        for n, f, whole in ((2, 1e-6, False), (3, 1e-30, True), (4, 1e-6, True), (2, 1e3, False)):
+            sp = fs(n, opt=ZERO_OPTS[cnt[0] % 4], pkind="full")
+            scale_rows(sp, n, f, whole)
+        for (R, S, gs, cp, dt, f) in ((2, 2, 2, False, "FP32", 1e-6), (2, 1, 2, True, "BF16", 1e-30), (2, 2, 1, False, "FP16", 1e-6), (3, 1, 3, False, "FP32", 1e3)):
+            sp = hy(R, S, gs, cp, dt, opt=ZERO_OPTS[cnt[0] % 4], pkind="full")
+            scale_rows(sp, S, f, cnt[0] % 2 == 0)
+        # -- gradients in a non-default memory layout (every parameter of order >= 2)
+        for n in (2, 4):
+            sp = fs(n, pkind="random")
+            sp["noncontig"] = [j for j, sh in enumerate(sp["shapes"]) if len(sh) >= 2]
+        sp = hy(2, 2, 2, False, "FP32", pkind="late")
+        sp["noncontig"] = [j for j, sh in enumerate(sp["shapes"]) if len(sh) >= 2]
+        # -- two equal-shaped parameters whose gradients alternate; nobody has a gradient at the first step
+        fs(2, shapes=[(4, 3), (4, 3), (5,), (2, 6)], maxdim=3, pkind="alternate", opt="shampoo_adam", T=6)
+        fs(3, shapes=[(6,), (6,), (3, 3), (1, 4)], maxdim=4, pkind="alternate", opt="shampoo_rmsprop", T=5)
+        hy(2, 2, 2, True, "FP32", shapes=[(4, 3), (4, 3), (5,), (2, 6)], maxdim=3, pkind="alternate", opt="shampoo_momentum", T=6)
+        hy(2, 1, 2, False, "BF16", shapes=[(4,), (4,), (4,), (4,)], maxdim=4, pkind="alternate", opt="shampoo_adagrad", T=5)
+        fs(3, pkind="first_none")
+        hy(2, 2, 2, False, "FP32", pkind="first_none")
+        hy(3, 1, 3, True, "FP16", pkind="first_none")
+        # -- FullyShard: gradient presence differs between the ranks (p.grad is None on some ranks only)
+        for n in (3, 4):
+            sp = fs(n, pkind="full")
+            T, k = len(sp["presence"]), len(sp["shapes"])
+            sp["rank_presence"] = [[[rng.random() < 0.6 for _ in range(k)] for _ in range(T)] for _ in range(n)]
+            sp["rank_presence"][0][1] = [False] * k           # one rank has no gradient at all at step 1
+            sp["pkind"] = "rank_dependent"
+        # -- twin parameter groups with identical hyperparameters (every group has a non-empty shard on every rank)
+        for n, shapes, groups in ((2, [(4, 3), (1, 4), (5,), (4, 3), (1, 4), (6, 2)], [[0, 1, 2], [3, 4, 5]]),
+                                  (3, [(3, 3), (2,), (7,), (3, 3), (2,), (9,)], [[0, 1, 2], [3, 4, 5]]),
+                                  (4, [(8, 2), (1,), (4, 4), (3,)], [[0, 1], [2, 3]])):
+            fs(n, shapes=shapes, maxdim=3, groups=groups, pkind=("random", "late", "none_step")[cnt[0] % 3], opt=ZERO_OPTS[cnt[0] % 4])
+        # -- a parameter without any element (a dimension of size 0): skipped on every rank
+        fs(2, shapes=[(3, 4), (2, 0), (5,)], maxdim=4, pkind="random")
+        fs(3, shapes=[(0, 3), (6, 2), (1,)], maxdim=4, pkind="late")
+        # -- injected interleaving: random delays before every step of every rank
+        hy(2, 2, 2, False, "FP32", delays=True, pkind="random")
+        hy(4, 1, 2, True, "BF16", delays=True, pkind="late")
+        hy(3, 1, 3, False, "FP16", delays=True, pkind="one_absent")
+    return out
+
+
+NOT_EXERCISED = {
+    "real fully_shard / DTensor runtime, NCCL, accelerators": "needs GPUs and torchrun; DTensor is stood in for by FakeDT (to_local = torch.chunk view), torch.distributed by harness/sim.py",
+    "0-dimensional (scalar) parameters": "cannot be sharded on dim 0; fully_shard rejects them",
+    "Shard placements other than dim 0, _StridedShard, replicated parameters inside fully_shard": "the property is about dim-0 sharded DTensors",
+    "HybridShard with several parameter groups": "the column model (Dist.v) and the recorded-direction oracle are per distributor; twin groups are exercised with FullyShard (whose code path HybridShard shares for the filtered traversals) and with DDP in C06",
+    "HybridShard with gradient presence differing between shard coordinates / between replicas": "replicas of a shard coordinate hold the all-reduced gradient; presence differing between ranks is exercised with FullyShard only",
+    "communicated values overflowing the communication dtype (FP16 inf) / NaN, inf gradients": "the exact binary32 arithmetic of DistExec returns a poison value on non-finite inputs; overflow of the communication rounding is exercised by C06",
+    "float16/bfloat16 preconditioner_dtype": "no eigh/qr CPU kernels for 16-bit dtypes (platform limit)",
+    "PT2-compiled step with FakeDT parameters": "Dynamo cannot trace the tensor-subclass stand-in; compiled steps are the subject of C18",
+    "more than 8 ranks, tensors of order > 3, blocks larger than ~120 elements": "run-time budget of the rank simulator; the theorems quantify over all sizes",
+    "schedules of ranks between collectives beyond random delays": "every schedule is covered by C08_hybrid_interleaving_irrelevant on the model; the simulator's thread interleaving + injected delays sample a few",
+}
+
+
+def classes_of(spec):
+    """Input classes of one scenario, from the INPUT only (quantifier audit)."""
+    c = set()
+    fsk = spec["kind"] == "fs"
+    n = spec["n"] if fsk else spec["S"]
+    world = n if fsk else spec["R"] * spec["S"]
+    c.add(f"{'FullyShard shard count' if fsk else 'HybridShard shard dim'} {n}")
+    c.add("8 simulated ranks" if world == 8 else ("5-7 simulated ranks" if world >= 5 else "1-4 simulated ranks"))
+    if n == 1:
+        c.add("single shard rank (local = global)")
+    shapes = spec["shapes"]
+    for sh in shapes:
+        c.add(f"parameter of order {len(sh)}")
+        if math.prod(sh) == 0:
+            c.add("parameter with numel 0 (skipped on every rank)")
+            continue
+        if sh[0] < n:
+            c.add("rows < shard count (some rank gets no row)")
+        elif sh[0] % n:
+            c.add("rows not a multiple of the shard count (uneven shards)")
+            if chunk_rows(sh[0], n, n - 1)[1] == chunk_rows(sh[0], n, n - 1)[0]:
+                c.add("rows >= shard count but the last rank still gets nothing (torch.chunk)")
+        else:
+            c.add("rows a multiple of the shard count")
+        if sh[0] == 1:
+            c.add("one-row parameter")
+        if any(d == 1 for d in sh[1:]) or (len(sh) > 1 and sh[0] == 1):
+            c.add("dimension of size 1")
+    for r in range(n):
+        ls = local_shapes(shapes, n, r)
+        if all(math.prod(x) == 0 for x in ls):
+            c.add("rank with only empty shards (constructor assertion)")
+        numels, nblocks = blocks_of_locals(ls, spec["maxdim"], spec["merge"])
+        if any(k > 1 for k in nblocks):
+            c.add("local shard split into several blocks")
+    c.add("use_merge_dims=" + str(spec["merge"]))
+    c.add("optimizer " + spec["opt"])
+    c.add("parameter dtype " + spec.get("pdtype", "f32"))
+    c.add("preconditioner dtype " + spec.get("precdtype", "f32"))
+    pres = spec["presence"]
+    if spec.get("rank_presence"):
+        c.add("FullyShard: gradient presence differs between ranks")
+        pres = [row for rp in spec["rank_presence"] for row in rp]
+    if any(not all(row) for row in pres):
+        c.add("absent gradients")
+    if any(not any(row) for row in pres):
+        c.add("step where no parameter has a gradient")
+    if not any(spec["presence"][0]) or (spec.get("rank_presence") and any(not any(rp[0]) for rp in spec["rank_presence"])):
+        c.add("no gradient at the FIRST step")
+    if any(not any(row[j] for row in spec["presence"]) for j in range(len(shapes))):
+        c.add("parameter that never has a gradient (dead layer)")
+    if any(t > 0 and any(spec["presence"][t][j] and not any(spec["presence"][u][j] for u in range(t)) for j in range(len(shapes))) for t in range(len(spec["presence"]))):
+        c.add("parameter whose first gradient arrives late")
+    if spec["pkind"] == "alternate":
+        c.add("two equal-shaped parameters with alternating gradients")
+    if spec.get("zkind", "none") != "none":
+        c.add({"shard": "present gradient exactly zero on one rank's shard", "whole": "present gradient entirely zero",
+               "step": "every gradient of a step present and zero"}[spec["zkind"]])
+    for _, _, _, _, f in spec.get("scales", []):
+        c.add("tiny gradient rows (1e-6 / 1e-30)" if f < 1 else "huge gradient rows (1e3)")
+    if spec.get("noncontig"):
+        c.add("gradient in a non-default memory layout")
+    if len(_groups(spec)) > 1:
+        c.add("twin parameter groups (identical hyperparameters)")
+    if not fsk:
+        c.add(f"2-D mesh {spec['R']}x{spec['S']}")
+        gs, R = spec["gs"], spec["R"]
+        c.add("num_trainers_per_group = 1" if gs == 1 else ("num_trainers_per_group = replicate size" if gs == R else "1 < num_trainers_per_group < replicate size"))
+        if spec.get("gs_default"):
+            c.add("num_trainers_per_group = -1 (default)")
+        c.add("communication dtype " + spec["cdtype"])
+        c.add("communicate_params=" + str(spec["cp"]))
+        if spec.get("pdtype", "f32") != "f32" or spec["cdtype"] in ("BF16", "FP16"):
+            c.add("communication dtype differs from the parameter dtype (rounded reference)")
+        if spec.get("delays"):
+            c.add("injected interleaving delays")
+        if spec["S"] == 1:
+            c.add("mesh with one shard coordinate (pure replicate group)")
+        if spec["R"] == 1:
+            c.add("mesh with one replica (pure FullyShard through the HybridShard code)")
+    else:
+        c.add("1-D mesh (FullyShardShampooConfig)")
+    return c
 
 
 # minimal reproducer of the known finding through HybridShard: 2 replicas of one shard rank, three one-block parameters
@@ -691,6 +995,9 @@ ZERO_SHARD_MINIMAL = {"kind": "fs", "n": 2, "shapes": [[8, 4], [6, 4], [1, 4]], 
                       "zeros": [[2, 0, 4, 8]], "zkind": "shard"}
 
 
+_IN_PROCESS = [0]      # scenarios already run by this worker process (module-level / cached state survives between them)
+
+
 def work_item(args):
     i, spec = args
     import torch
@@ -698,12 +1005,12 @@ def work_item(args):
     from harness import sim
     sim.silence_library_logging()
     t0 = time.time()
-    out = {"i": i, "spec": spec}
+    out = {"i": i, "spec": spec, "nth_in_process": _IN_PROCESS[0]}
+    _IN_PROCESS[0] += 1
     try:
         if spec["kind"] == "fs":
             o = run_fs(spec)
-            out["coq"] = coq_fs_case(i, spec, o)
-            out["nres"] = 2 * len(o["ranks"])
+            out["coq"], out["nres"] = coq_fs_case(i, spec, o)
             out["errors"] = [f"rank {r}: {rk['error']}" for r, rk in enumerate(o["ranks"]) if rk["error"]]
             out["tracebacks"] = [rk["traceback"] for rk in o["ranks"] if rk["traceback"]][:1]
             out["ctor_failed"] = [bool(rk["rec"].get("ctor_failed")) for rk in o["ranks"]]
@@ -849,6 +1156,16 @@ def run(ck: Check) -> None:
         s = r["spec"]
         samples.append({k: s[k] for k in s if k != "seed"} | {"agree": r["agree"], "checker": r["check"], "empty_local_shards": r.get("empty_shards"),
                                                              "hung": r.get("hung"), "starving_columns": [c["starving_steps"] for c in r["sig"]["columns"]] if "sig" in r else None})
+    qa = {}
+    for r in evaluated:
+        for c in classes_of(r["spec"]):
+            qa[c] = qa.get(c, 0) + 1
+    qa["present gradient exactly zero on a non-empty local shard after a non-zero one (rank,step,param triples)"] = sum(len(zero_shard_events(r["spec"])) for r in evaluated)
+    qa["scenario that is not the first one run by its process (cached / module-level state of an earlier optimizer alive)"] = sum(1 for r in evaluated if r.get("nth_in_process", 0) > 0)
+    qa["starving history (a rank of a comms group without local gradients while a peer has one)"] = sum(1 for r in hy if r["sig"]["starves"])
+    qa["empty local shards (rank x parameter)"] = sum(r.get("empty_shards", 0) for r in evaluated)
+    ck.coverage["quantifier_audit"] = dict(sorted(qa.items()))
+    ck.coverage["not_exercised"] = NOT_EXERCISED
     ck.coverage.update({
         "evaluations": len(evaluated),
         "distinct_nontrivial": len(nontriv),
@@ -902,8 +1219,8 @@ def replay(obj) -> bool:
         for r, rk in enumerate(o["ranks"]):
             rec = rk["rec"]
             ne = [math.prod(sh) > 0 for sh in rec.get("lshapes", [])]
-            loc = [[b for b, keep in zip(step, ne) if keep] for step in rec.get("local", [])]
-            print(f"rank {r}: local shapes {rec.get('lshapes')} ctor_failed={rec.get('ctor_failed')} error={rk['error']} block infos {rec.get('binfo')}")
+            loc = [[[b for j, (b, keep) in enumerate(zip(step, ne)) if keep and j in g] for step in rec.get("local", [])] for g in _groups(spec)]
+            print(f"rank {r}: local shapes {rec.get('lshapes')} ctor_failed={rec.get('ctor_failed')} error={rk['error']} block infos per group {[g['binfo'] for g in rec.get('grp', [])]}")
             print(f"   local shards == serial on local tensors after every step: {loc == rk['ref']};  foreign rows untouched: {all(x == rec.get('outside0') for x in rec.get('outside', []))}")
     else:
         sig = hy_input_signature(spec)
